@@ -30,8 +30,8 @@ fn size_pairs(tier: Tier) -> Vec<(usize, usize)> {
     let sz = sizes(tier);
     let mut v: Vec<(usize, usize)> = sz.iter().flat_map(|&w| sz.iter().map(move |&h| (w, h))).collect();
     let extra: &[(usize, usize)] = match tier {
-        Tier::Quick => &[(128, 2), (2, 128), (257, 1), (1, 257), (132, 4)],
-        Tier::Thorough => &[(127, 2), (128, 2), (129, 2), (2, 127), (2, 128), (2, 129), (255, 4), (256, 4), (257, 1), (1, 257), (4, 256), (132, 4), (320, 8), (8, 320), (100, 100)],
+        Tier::Quick => &[(128, 2), (2, 128), (257, 1), (1, 257), (132, 4), (65, 3), (129, 2), (96, 80)],
+        Tier::Thorough => &[(127, 2), (128, 2), (129, 2), (2, 127), (2, 128), (2, 129), (255, 4), (256, 4), (257, 1), (1, 257), (4, 256), (132, 4), (320, 8), (8, 320), (100, 100), (65, 3), (129, 2), (96, 80), (192, 6), (260, 12), (512, 2)],
     };
     v.extend_from_slice(extra);
     v
@@ -40,7 +40,9 @@ fn size_pairs(tier: Tier) -> Vec<(usize, usize)> {
 fn meta(k: u8, n: u8, ss: (u8, u8)) -> YuvConfig {
     match k {
         0 => cfg_full(n, false, ss, MC::BT709, TC::BT1886, CP::BT709),
-        _ => cfg_full(n, true, ss, MC::BT2020NonConstantLuminance, TC::PerceptualQuantizer, CP::BT2020),
+        1 => cfg_full(n, true, ss, MC::BT2020NonConstantLuminance, TC::PerceptualQuantizer, CP::BT2020),
+        2 => cfg_full(n, false, ss, MC::YCgCo, TC::HybridLogGamma, CP::P3DCI),
+        _ => cfg_full(n, true, ss, MC::ST170M, TC::SRGB, CP::BT470M),
     }
 }
 
@@ -586,9 +588,10 @@ fn dec_cases(tier: Tier) -> Vec<DecCase> {
                     continue;
                 }
                 for wide in [false, true] {
-                    for k in 0..2u8 {
-                        // the second metadata set only on every other size (it exercises the same indexing)
-                        if k == 1 && tier == Tier::Quick && (w + h) % 2 == 1 {
+                    for k in 0..4u8 {
+                        // quick: the four metadata sets rotate over the sizes (two per size);
+                        // thorough: all four on every size
+                        if tier == Tier::Quick && k != ((w + h) % 4) as u8 && k != ((w + h + 2 * (ss.0 as usize)) % 4 + 1) as u8 % 4 {
                             continue;
                         }
                         v.push(DecCase { w, h, ss, wide, k });
@@ -610,7 +613,7 @@ fn enc_cases(tier: Tier) -> Vec<EncCase> {
                 }
                 for wide in [false, true] {
                     for src in 0..4u8 {
-                        let k = ((w + h + src as usize) % 2) as u8;
+                        let k = ((w + h + src as usize) % 4) as u8;
                         v.push(EncCase { w, h, ss, wide, k, src });
                     }
                 }
@@ -710,7 +713,7 @@ pub fn run(tier: Tier) -> Report {
     check_histories(&mut rep, tier, base + ec.len() as u64);
     rep.guard_bucket("histories [a,b] and [a,b,a]: every result equals the fresh-thread result");
     rep.bound = format!(
-        "call histories [a,b] and [a,b,a] over an alphabet of {} operations (10 conversions x metadata varying every field from {} base triples x {} image variants), each on a fresh thread; image sizes {:?}^2 (plus long/large shapes such as 128x2, 2x128, 257x1, 256x4, 320x8) restricted to multiples of the subsampling x 6 subsamplings x u8/u16 x 2 metadata sets: {} YUV sources (each to Rgb, LinearRgb, Xyb; by reference, by value, repeated, and rebuilt with {} other paddings/poisons; 0..=32 on each axis at 4x4 and 8x8), {} float->float conversions (8 kinds), {} encodes (4 source kinds)",
+        "call histories [a,b] and [a,b,a] over an alphabet of {} operations (10 conversions x metadata varying every field from {} base triples x {} image variants), each on a fresh thread; image sizes {:?}^2 (plus long/large shapes such as 128x2, 2x128, 257x1, 256x4, 320x8) restricted to multiples of the subsampling x 6 subsamplings x u8/u16 x 4 metadata sets: {} YUV sources (each to Rgb, LinearRgb, Xyb; by reference, by value, repeated, and rebuilt with {} other paddings/poisons; 0..=32 on each axis at 4x4 and 8x8), {} float->float conversions (8 kinds), {} encodes (4 source kinds)",
         rep.extra.get("history_ops").and_then(|v| v.as_u64()).unwrap_or(0), tier.pick(2, 4), tier.pick(3, 5),
         sizes(tier), dc.len(), pads(tier, 5, 5).len(), fc.len(), ec.len()
     );
